@@ -90,6 +90,11 @@ func TestCheck(t *testing.T) {
 	r.Require("no_loss_demands_checked", 1000)
 	r.Require("resolution_attempts_failed", 100)
 	r.Require("advances_with_missed_ticks", 50)
+	r.Require("missed_tick_jumps/fractional_slots", 20)
+	r.Require("missed_tick_jumps/across_epoch_boundary", 20)
+	r.Require("missed_tick_jumps/while_scheduleSlot_is_blocked", 15)
+	r.Require("foreign_cache_user_fetches", 200)
+	r.Require("bn_calls/failed_scheduler_fetch_for_epoch_partly_cached_by_foreign_user", 20)
 	r.Require("deadlines_checked", 1000)
 	r.Require("head_events_injected", 1000)
 	r.Require("early_fetch_attester_triggers", 300)
@@ -265,14 +270,51 @@ func runCase(c *kit.Case, rng *rand.Rand, phase string, reorgFeature bool, early
 			}(slot)
 		}
 
-		if sc.Early {
-			// the ticker arms one timer per tick: wait until it is armed for the next slot, so that no
-			// sub-slot advance can fall between its clock.Now() and its clock.After()
-			if !kit.WaitUntil(gateWatchdog, func() bool { return sclock.tickerArms.Load() >= int64(gate)+2 }) {
-				inconclusive = "slot ticker did not arm its timer for the next slot within the watchdog"
-				close(ev.release)
-				break
+		if sc.Foreign && h.dutiesCache != nil && chance(0.5, "foreign", slot) {
+			// A foreign user of the duties cache (validator client through validatorapi, tracker) asks for a
+			// NARROWER index list, for this and the next epoch, before the scheduler resolves them.
+			fctx := context.WithValue(ctx, foreignKey{}, true)
+			for de := uint64(0); de < 2; de++ {
+				e := sc.epochOf(slot) + de
+				var subset []eth2p0.ValidatorIndex
+				for _, v := range sc.Cluster {
+					if chance(0.4, "foreign-v", slot, e, v.Idx) {
+						subset = append(subset, v.Idx)
+					}
+				}
+				if len(subset) == 0 || len(subset) == len(sc.Cluster) {
+					continue
+				}
+				if chance(0.7, "foreign-att", slot, e) {
+					_, _ = h.dutiesCache.AttesterDutiesCache(fctx, eth2p0.Epoch(e), subset)
+					r.Count("foreign_cache_user_fetches", 1)
+				}
+				if chance(0.5, "foreign-pro", slot, e) {
+					_, _ = h.dutiesCache.ProposerDutiesCache(fctx, eth2p0.Epoch(e), subset)
+					r.Count("foreign_cache_user_fetches", 1)
+				}
+				if chance(0.5, "foreign-sync", slot, e) {
+					_, _ = h.dutiesCache.SyncCommDutiesCache(fctx, eth2p0.Epoch(e), subset)
+					r.Count("foreign_cache_user_fetches", 1)
+				}
 			}
+		}
+
+		// The ticker arms one timer per emitted tick (schedClock counts them): once it has armed the timer that
+		// follows this tick it either sleeps until the next slot or - duration <= 0 - has fired at once and
+		// queued the next tick. No advance may fall between its clock.Now() and its clock.After().
+		if !kit.WaitUntil(gateWatchdog, func() bool { return sclock.tickerArms.Load() >= int64(gate)+2 }) {
+			inconclusive = "slot ticker did not arm its timer for the next slot within the watchdog"
+			close(ev.release)
+			break
+		}
+		if sclock.lastTickerD.Load() <= 0 || repeatedTick { // a tick is already queued: no clock movement
+			r.Count("ticks_delivered_from_backlog", 1)
+			close(ev.release)
+			continue
+		}
+
+		if sc.Early {
 			close(ev.release)
 			if chance(0.5, "racing", slot) { // concurrently with scheduleSlot(slot): resolution, duty goroutines starting
 				for i := 0; i < 8; i++ {
@@ -320,29 +362,27 @@ func runCase(c *kit.Case, rng *rand.Rand, phase string, reorgFeature bool, early
 			continue
 		}
 
-		backlog := !clock.Now().Before(sc.slotStart(slot + 1)) // the next slot already started: its tick is queued
-		if repeatedTick {
-			backlog = true // a ticker that repeats a slot is not asleep: let it run into the repeat limit
-		}
-		if !backlog {
-			bctx, bcancel := context.WithTimeout(ctx, gateWatchdog)
-			err := clock.BlockUntilContext(bctx, 1) // the slot ticker sleeps until the next slot
-			bcancel()
-			if err != nil {
-				inconclusive = "slot ticker did not go back to sleep within the watchdog"
-				close(ev.release)
-				break
+		plan := sc.Steps[step]
+		step++
+		adv := time.Duration(plan.Slots * float64(sc.SlotDur))
+		if plan.Slots > 1 {
+			missedAdv++
+			missedSlots += int(plan.Slots) - 1
+			if plan.Slots != float64(int(plan.Slots)) {
+				r.Count("missed_tick_jumps/fractional_slots", 1)
+			}
+			if sc.epochOf(slot) != sc.epochOf(uint64(float64(slot)+plan.Slots)) {
+				r.Count("missed_tick_jumps/across_epoch_boundary", 1)
 			}
 		}
-		close(ev.release)
-		if !backlog {
-			k := sc.Steps[step]
-			step++
-			if k > 1 {
-				missedAdv++
-				missedSlots += k - 1
-			}
-			clock.Advance(time.Duration(k) * sc.SlotDur)
+		if plan.Blocked {
+			// scheduleSlot(slot) is still blocked (parked in its schedSlotFunc) while more than a slot passes
+			r.Count("missed_tick_jumps/while_scheduleSlot_is_blocked", 1)
+			clock.Advance(adv)
+			close(ev.release)
+		} else {
+			close(ev.release)
+			clock.Advance(adv)
 		}
 	}
 
